@@ -506,7 +506,10 @@ class URL:
             except UnicodeEncodeError:
                 self.host = ud['host']  # already non-ascii text
             else:
-                self.host = self.host.decode("idna")
+                try:
+                    self.host = self.host.decode("idna")
+                except UnicodeError as ue:
+                    raise URLParseError(f'invalid IDNA host: {ud["host"]!r} ({ue!r})')
 
         self.port = ud['port']
         self.path_parts = tuple([unquote(p) if '%' in p else p for p
